@@ -78,6 +78,7 @@ func init() {
 			p.ruleA7(c)
 			rows := p.ruleMatrix(c, kinds, "Intersects", 6)
 			c.Notes = append(c.Notes, matrixEvidence(rows)...)
+			p.ruleScanExits(c)
 			p.ruleB1(c, nil)
 			p.ruleM1(c, map[string]bool{"geometry.Segment.IntersectsSegment": true})
 			p.ruleE8(c, "geometry.Rect.IntersectsRect", "geometry.Segment.IntersectsSegment#box-prefix", "geometry.Rect.ContainsPoint")
@@ -97,6 +98,7 @@ func init() {
 			p.ruleEmptyContainee(c)
 			p.ruleConvexGate(c)
 			p.ruleConvexFSM(c)
+			p.ruleScanExits(c)
 			p.ruleB1(c, nil)
 			p.ruleE8(c, "geometry.Rect.ContainsRect", "geometry.Rect.ContainsPoint")
 			c.Exhaustive = true
